@@ -177,12 +177,14 @@ func (loader *Loader) loadFromDataWithPathInternal(data []byte, location *url.UR
 	loader.visitedDocuments[uri] = doc
 
 	if err := unmarshal(data, doc, IncludeOrigin); err != nil {
+		delete(loader.visitedDocuments, uri) // not a loaded document: a later load must not be answered with it
 		return nil, err
 	}
 
 	doc.url = copyURI(location)
 
 	if err := loader.ResolveRefsIn(doc, location); err != nil {
+		delete(loader.visitedDocuments, uri)
 		return nil, err
 	}
 
